@@ -530,6 +530,88 @@ def run(ck: Check, repo: Repo) -> None:
     # what is written must be decodable by the reader: no error mode that emits bytes the reader turns into something else (shared with C16-R5)
     from . import c16
     c16.rule_decode_modes(ck, repo, "R13")
+    rule_finder_window(ck, repo)
+    rule_tables_reachable(ck, repo, folder)
+
+
+# ------------------------------------------------------------------ R15: every entry of the type tables can be found
+def rule_tables_reachable(ck: Check, repo: Repo, folder: Folder, rid: str = "R15") -> None:
+    """get_comment_style looks a path up by a KEY it computes (`path.name.lower()`, `path.suffix.lower()`) in the lower-cased
+    copies of the tables.  Every entry of the written tables must be found by the key computed from a file of that type:
+    key(entry) must be a key of the table that is consulted, with the entry's style."""
+    r = ck.rule(rid, "every entry of the extension / file-name tables is found by get_comment_style's lookup")
+    q = "reuse.comment.get_comment_style"
+    fn = repo.func(q)
+    ck.analysed_fn(q)
+    lookups = []
+    for c in ast.walk(fn):
+        if isinstance(c, ast.Call) and isinstance(c.func, ast.Attribute) and c.func.attr == "get" and isinstance(c.func.value, ast.Name) and c.args:
+            lookups.append((c.func.value.id, ast.unparse(c.args[0])))
+    r.instance("lookups", {"lookups": lookups}, q)
+    KEYFN = {"path.name.lower()": ("name", str.lower), "path.name": ("name", lambda x: x), "path.suffix.lower()": ("suffix", str.lower),
+             "path.suffix": ("suffix", lambda x: x), "path.name.casefold()": ("name", str.casefold), "path.suffix.casefold()": ("suffix", str.casefold)}
+    written = {"name": "FILENAME_COMMENT_STYLE_MAP", "suffix": "EXTENSION_COMMENT_STYLE_MAP"}
+    seen_kinds = set()
+    n = 0
+    for table, keytext in lookups:
+        if keytext not in KEYFN:
+            raise AnalysisError(f"get_comment_style: lookup key `{keytext}` is not in the table of key computations")
+        kind, f = KEYFN[keytext]
+        seen_kinds.add(kind)
+        consulted = folder.known("reuse.comment", table)
+        src = folder.known("reuse.comment", written[kind])
+        if not isinstance(consulted, dict) or not isinstance(src, dict):
+            raise AnalysisError(f"{table} / {written[kind]} did not fold to dictionaries")
+        unreachable_by_shape = []
+        for k, style in src.items():
+            n += 1
+            if kind == "suffix" and (k.count(".") != 1 or not k.startswith(".")):
+                unreachable_by_shape.append(k)   # `Path.suffix` is the part from the LAST dot: such a key is never computed
+                continue
+            got = consulted.get(f(k))
+            if got is None or getattr(got, "__name__", got) != getattr(style, "__name__", style) and repr(got) != repr(style):
+                r.violation(q, f"entry {k!r} of {written[kind]} is not found",
+                            f"a file of that type is looked up as {table}[{f(k)!r}] = {got!r}; the entry says {style!r} - `reuse annotate` on"
+                            f" such a file says the type is not recognised (or picks another style)", repo.loc(fn), {"entry": k})
+        r.instance(f"table:{written[kind]}", {"entries": len(src), "consulted": table, "key": keytext, "never_computed": unreachable_by_shape},
+                   f"reuse.comment.{written[kind]}")
+    if seen_kinds != {"name", "suffix"}:
+        r.violation(q, "a type table is not consulted", f"lookups: {lookups}", repo.loc(fn))
+    r.floor(300, "table entries", got=n)
+
+
+# ------------------------------------------------------------------ R14: the finder searches no further than the reader reads
+def rule_finder_window(ck: Check, repo: Repo, rid: str = "R14") -> None:
+    """The linter reads the first _HEADER_BYTES bytes of a file (everything only when it contains a snippet); the header
+    finder of annotate scans the text it is given.  A finder that scans beyond the reader's window replaces a comment the
+    linter never reads: the run reports success and nothing it wrote can be read back."""
+    r = ck.rule(rid, "the existing header that annotate replaces lies inside the window the linter reads")
+    rq = "reuse.extract.reuse_info_of_file"
+    fq = "reuse.header._find_first_spdx_comment"
+    rf, ff = repo.func(rq), repo.func(fq)
+    ck.analysed_fn(rq, fq)
+    bounded_reader = any(isinstance(n, ast.Name) and n.id == "_HEADER_BYTES" for n in ast.walk(rf))
+    # the finder: any bound on the positions it tries (a window constant, a slice of the text, a comparison of the index)
+    param = ff.args.args[0].arg
+    bound = []
+    for n in ast.walk(ff):
+        if isinstance(n, ast.Name) and n.id == "_HEADER_BYTES":
+            bound.append("_HEADER_BYTES")
+        if isinstance(n, ast.Compare) and any(isinstance(x, ast.Name) and x.id in ("index", "start", "offset", "pos") for x in ast.walk(n)) \
+                and any(isinstance(x, (ast.Constant, ast.Name)) and (getattr(x, "id", "").isupper() or isinstance(getattr(x, "value", None), int)) for x in ast.walk(n)):
+            bound.append(ast.unparse(n))
+    callers_slice = []
+    for q, fn in repo.functions.items():
+        for c in ast.walk(fn):
+            if isinstance(c, ast.Call) and ast.unparse(c.func) == "_find_first_spdx_comment" and c.args and isinstance(c.args[0], ast.Subscript):
+                callers_slice.append(ast.unparse(c.args[0]))
+    r.instance("windows", {"reader_bounded_by": "_HEADER_BYTES" if bounded_reader else None, "finder_bounds": bound, "callers_pass_slice": callers_slice,
+                           "finder_text_parameter": param}, fq)
+    if bounded_reader and not bound and not callers_slice:
+        r.violation(fq, "the finder scans the whole text, the linter reads a bounded window",
+                    "a file with ~5 KiB of code followed by `# SPDX-License-Identifier: 0BSD`: `reuse annotate -c Jane -l MIT f.py` finds that comment,"
+                    " replaces it in place and reports success; the linter (first 4096 bytes, no snippet) reads nothing at all for the file",
+                    repo.loc(ff))
 
 
 # ------------------------------------------------------------------ R10: the header finder and the reader agree on ignore blocks
